@@ -109,7 +109,7 @@ def register(reg):
              'exc.recovery_nodes.pos_end <= len(latex_walker.s)' % RDP),
             ('reader-never-moves-backwards', 'old(%s) <= %s and %s <= len(latex_walker.s)' % (RDP, RDP, RDP)),
         ]}},
-        modifies=[('token_reader._pos', 'int')]))
+        modifies=[('token_reader._pos', 'int'), ('latex_walker._line_no_calc', lambda it, hint, cur=None: cur)]))
     units['LatexGeneralNodesParser.parse'] = FunctionUnit(c_gnp, inline={
         COLL + '.get_parser_parsing_state_delta', COLL + '.stop_token_condition_met', COLL + '.stop_nodelist_condition_met',
         COLL + '.stop_token_condition_met_token', COLL + '.stop_condition_stop_data'}, split_depth=5)
